@@ -226,13 +226,13 @@ func checkFilter(arg string, f rule.FilterSpec, cmp bool) string {
 	return ""
 }
 
+// splitList: every element of every comma list, blanks around it trimmed, empty elements included (an empty
+// element is a word of the line like any other: `-S open,close,` names three things, the last one nothing).
 func splitList(vs []string) []string {
 	var out []string
 	for _, v := range vs {
 		for _, w := range strings.Split(v, ",") {
-			if w = strings.TrimSpace(w); w != "" {
-				out = append(out, w)
-			}
+			out = append(out, strings.TrimSpace(w))
 		}
 	}
 	return out
@@ -362,7 +362,7 @@ func propC14(c C14Case) error {
 		if !dflag {
 			return fail("a delete rule was returned without -D")
 		}
-		if !sameList(dropEmpty(v.Keys), wantKeys) {
+		if !sameList(v.Keys, wantKeys) {
 			return fail("keys %q, want %q", v.Keys, wantKeys)
 		}
 	case *rule.FileWatchRule:
@@ -386,7 +386,7 @@ func propC14(c C14Case) error {
 		if want := strings.Join(pArgs, ""); perms != want {
 			return fail("permissions %q, want %q", perms, want)
 		}
-		if !sameList(dropEmpty(v.Keys), wantKeys) {
+		if !sameList(v.Keys, wantKeys) {
 			return fail("keys %q, want %q", v.Keys, wantKeys)
 		}
 	case *rule.SyscallRule:
@@ -421,10 +421,10 @@ func propC14(c C14Case) error {
 				special = true
 			}
 		}
-		if want := splitList(sArgs); !sameList(dropEmpty(v.Syscalls), want) {
+		if want := splitList(sArgs); !sameList(v.Syscalls, want) {
 			return fail("syscalls %q, want %q", v.Syscalls, want)
 		}
-		if !sameList(dropEmpty(v.Keys), wantKeys) {
+		if !sameList(v.Keys, wantKeys) {
 			return fail("keys %q, want %q", v.Keys, wantKeys)
 		}
 	default:
